@@ -3,6 +3,7 @@
 import sys
 import csv
 import math
+from fractions import Fraction
 import tomllib
 import logging
 import numpy as np
@@ -59,8 +60,16 @@ def snap_command(input_workload, output_file, ticks_per_second, force=False):
         for row in reader:
             # Modify arrival_seconds if it's set (not empty)
             if row['arrival_seconds'].strip():
-                original = float(row['arrival_seconds'])
-                snapped = math.floor(original * ticks_per_second) / ticks_per_second
+                # exact decimal arithmetic: in floating point 0.29 * 100 is
+                # 28.999999999999996, which would move a time that is already
+                # on a tick boundary down by a whole tick
+                original = Fraction(row['arrival_seconds'].strip())
+                tick = math.floor(original * ticks_per_second)
+                snapped = tick / ticks_per_second
+                if Fraction(repr(snapped)) * ticks_per_second < tick:
+                    # boundary not representable (e.g. 1/3): take the float just
+                    # above it, so that snapping the result again is a no-op
+                    snapped = math.nextafter(snapped, math.inf)
                 row['arrival_seconds'] = snapped
 
             writer.writerow(row)
